@@ -1,5 +1,19 @@
 """Which contract families decide which property, and at what claimed level."""
 PROPS = {
+    'C12': {
+        'families': ['contracts.sigsim'],
+        'level': 'proof',
+        'technique': 'contract-based deductive verification: raising postconditions + gate obligation, VCs from the real AST, z3/cvc5',
+        'text': 'Gate: _check_simulation returns True only with an empty residual diff, False only when simulation is impossible, '
+                'otherwise raises. Raising postconditions of Simulation.get_*_sig/fail and of AddField/ChangeField/DeleteField.simulate '
+                '(missing app/model/field, existing field, primary key, non-null without initial). Effect obligation: the prepare chain '
+                'contains no SQL-executing call; only CannotSimulate is swallowed.',
+        'level_note': "Trusted: pyvc engine/encoding; Django field-type comparison (_get_field_type_change) as an uninterpreted predicate; "
+                      "issubclass(field_type, ManyToManyField) uninterpreted; the effect obligations are syntactic (AST) checks. "
+                      "Reported gap: when can_simulate() is false (raw SQLMutation) the gate lets execution proceed unchecked; the "
+                      "property's quantifier (perturbed simulatable evolutions) does not reach it.",
+        'not_decided': ['Command.handle as a whole (option parsing, I/O) - only its gate callee is under contract'],
+    },
     'C09': {
         'families': ['contracts.graph'],
         'level': 'proof',
